@@ -1117,8 +1117,10 @@ func (_this *cteListener) ExitCommentBlock(ctx *parser.CommentBlockContext) {
 
 // ---------------------------------------------------------------------------
 
+// Parse a run of decimal digits (the grammar allows nothing else here: leading
+// zeros do not make it octal)
 func parseSmallUint(str string) uint64 {
-	if v, err := strconv.ParseUint(str, 0, 64); err == nil {
+	if v, err := strconv.ParseUint(str, 10, 64); err == nil {
 		return v
 	} else {
 		panic(err)
